@@ -314,9 +314,14 @@ const OPTS: OpOptions = OpOptions {
 
 fn strategy_valid(t: Tier) -> BoxedStrategy<ValidCase> {
     let max_len = t.pick(16, 40);
-    arb_fam()
-        .prop_flat_map(move |fam| arb_n(0, 8).prop_flat_map(move |n| arb_history(n, fam, OPTS, 1, max_len).prop_map(move |h| ValidCase { fam, h })))
-        .boxed()
+    // about one history in 3000 runs on Luts of 17..=20 variables (tables of 2048 .. 16384 words: the
+    // kernels' own size assertions must hold there too), at most 4 steps
+    let huge = (17usize..=20).prop_flat_map(|n| arb_history(n, Fam::Dyn, OPTS, 1, 4).prop_map(|h| ValidCase { fam: Fam::Dyn, h }));
+    prop_oneof![
+        3000 => arb_fam().prop_flat_map(move |fam| arb_n(0, 8).prop_flat_map(move |n| arb_history(n, fam, OPTS, 1, max_len).prop_map(move |h| ValidCase { fam, h }))),
+        1 => huge,
+    ]
+    .boxed()
 }
 
 struct Peer {
@@ -453,7 +458,7 @@ fn run_valid(c: &ValidCase) -> Verdict {
 pub fn def() -> PropDef {
     PropDef {
         id: "C17",
-        rule: "invalid: cases = (family, receiver table, call with an out-of-range or mismatched argument), n in 0..=8, run in BOTH build profiles (release; release + debug-assertions + overflow-checks): nth_var, value/get_bit/set_bit/unset_bit/set_value (assignment in 2^n..=2^n+70 and 2^20, usize::MAX/2, MAX-1, MAX), flip(_inplace), swap(_inplace) with either or both indices bad and in both argument orders, swap_adjacent(_inplace) (n-1 included), cofactors, from_cofactors, top_decomposition, is_pos_unate, is_neg_unate (index in n..=n+70 and 255, 256, 2^20, usize::MAX/2, MAX-1, MAX), from_blocks with every slice length 0..=6 other than the right one, and for Lut every form of and/or/xor, from_cofactors and bdd_complexity with operands of different n (for bdd_complexity the odd table at every position of lists of 2..=6 tables, the odd table being constant one, constant zero, a table with the very blocks of the other members, or Lut::default()); three receivers per size (constant one, a dense table, zero) — this part is a complete enumeration in both tiers — plus generated receivers and arbitrary out-of-range values. Under catch_unwind the call must panic; `returned` is the violation and what was returned is reported. Non-trivial = index/assignment within 64 of the valid range (where release kernels would compute silently). valid: cases = (family, history of 1..16 (quick) / 1..40 (thorough) in-range API calls over a pool of 4 generated tables, n in 0..=8, the whole common API as in C10 incl. equals/threshold with k up to usize::MAX and the hooked successor); the history is executed in this build and, through a long-lived child process (`vcheck serve`), in the other build profile; every step's outcome (blocks, certificates, strings, counts, orderings, Ok/Err) must be identical and neither side may panic. Non-trivial = the history reaches a kernel with debug assertions or arithmetic on user-supplied sizes.",
+        rule: "invalid: cases = (family, receiver table, call with an out-of-range or mismatched argument), n in 0..=8, run in BOTH build profiles (release; release + debug-assertions + overflow-checks): nth_var, value/get_bit/set_bit/unset_bit/set_value (assignment in 2^n..=2^n+70 and 2^20, usize::MAX/2, MAX-1, MAX), flip(_inplace), swap(_inplace) with either or both indices bad and in both argument orders, swap_adjacent(_inplace) (n-1 included), cofactors, from_cofactors, top_decomposition, is_pos_unate, is_neg_unate (index in n..=n+70 and 255, 256, 2^20, usize::MAX/2, MAX-1, MAX), from_blocks with every slice length 0..=6 other than the right one, and for Lut every form of and/or/xor, from_cofactors and bdd_complexity with operands of different n (for bdd_complexity the odd table at every position of lists of 2..=6 tables, the odd table being constant one, constant zero, a table with the very blocks of the other members, or Lut::default()); three receivers per size (constant one, a dense table, zero) — this part is a complete enumeration in both tiers — plus generated receivers and arbitrary out-of-range values. Under catch_unwind the call must panic; `returned` is the violation and what was returned is reported. Non-trivial = index/assignment within 64 of the valid range (where release kernels would compute silently). valid: cases = (family, history of 1..16 (quick) / 1..40 (thorough) in-range API calls over a pool of 4 generated tables, n in 0..=8 (about one history in 3000 on Luts of 17..=20 variables, at most 4 calls), the whole common API as in C10 incl. equals/threshold with k up to usize::MAX and the hooked successor); the history is executed in this build and, through a long-lived child process (`vcheck serve`), in the other build profile; every step's outcome (blocks, certificates, strings, counts, orderings, Ok/Err) must be identical and neither side may panic. Non-trivial = the history reaches a kernel with debug assertions or arithmetic on user-supplied sizes.",
         assumptions: vec![
             "a panic is recognised through catch_unwind (panic = unwind in both harness profiles)",
             "a dead / unreachable other-profile process is reported as inconclusive (exit 2), never as a violation",
